@@ -274,6 +274,20 @@ class DynamicBayesianNetwork(DAG):
                 f"Loops are not allowed. Adding the edge from ({str(start)} --> {str(end)}) forms a loop."
             )
 
+        if start[1] == end[1]:
+            # An intra-slice edge is mirrored to the other slice; it must not close a
+            # loop there either (the two slices can differ after a node was removed).
+            mirror_start = DynamicNode(start[0], 1 - start[1])
+            mirror_end = DynamicNode(end[0], 1 - end[1])
+            if (
+                mirror_start in super(DynamicBayesianNetwork, self).nodes()
+                and mirror_end in super(DynamicBayesianNetwork, self).nodes()
+                and nx.has_path(self, mirror_end, mirror_start)
+            ):
+                raise ValueError(
+                    f"Loops are not allowed. Adding the edge from ({str(start)} --> {str(end)}) forms a loop."
+                )
+
         super(DynamicBayesianNetwork, self).add_edge(start, end, **kwargs)
 
         if start[1] == end[1]:
